@@ -342,3 +342,388 @@ Section IR.
     intros a d. unfold ir_concrete_descendants. rewrite filter_In, negb_true_iff. tauto.
   Qed.
 End IR.
+
+(** * The ontology's ancestor lists are the transitive closure of [base] *)
+Lemma lookup_In_keys : forall (A : Type) (k : name) (mp : list (name * A)),
+  In k (map fst mp) -> exists v, lookup k mp = Some v.
+Proof.
+  intros A k mp. induction mp as [|[k' v'] mp IH]; cbn [map fst In lookup]; intro H; [contradiction|].
+  destruct (text_eqb k' k) eqn:E; [eexists; reflexivity|].
+  destruct H as [H|H]; [apply text_eqb_neq in E; contradiction | apply IH; exact H].
+Qed.
+
+Lemma lookup_Some_In : forall (A : Type) (k : name) (mp : list (name * A)) v,
+  lookup k mp = Some v -> In (k, v) mp.
+Proof.
+  intros A k mp v. induction mp as [|[k' v'] mp IH]; cbn [lookup In]; intro H; [discriminate|].
+  destruct (text_eqb k' k) eqn:E.
+  - apply text_eqb_eq in E. injection H as <-. subst. left. reflexivity.
+  - right. apply IH. exact H.
+Qed.
+
+Lemma In_lookup_NoDup : forall (A : Type) (k : name) (mp : list (name * A)) v,
+  NoDup (map fst mp) -> In (k, v) mp -> lookup k mp = Some v.
+Proof.
+  intros A k mp v. induction mp as [|[k' v'] mp IH]; cbn [map fst lookup In]; intros Hnd H; [contradiction|].
+  inversion Hnd as [|? ? Hk Hnd']; subst.
+  destruct H as [H|H].
+  - injection H as -> ->. rewrite text_eqb_refl. reflexivity.
+  - destruct (text_eqb k' k) eqn:E.
+    + apply text_eqb_eq in E. subst. exfalso. apply Hk.
+      change k with (fst (k, v)). apply in_map. exact H.
+    + apply IH; assumption.
+Qed.
+
+Lemma lookup_snoc : forall (A : Type) (k c : name) (v : A) (mp : list (name * A)),
+  lookup k (mp ++ [(c, v)]) =
+  match lookup k mp with
+  | Some x => Some x
+  | None => if text_eqb c k then Some v else None
+  end.
+Proof.
+  intros A k c v mp. induction mp as [|[k' v'] mp IH]; cbn [app lookup]; [reflexivity|].
+  destruct (text_eqb k' k); [reflexivity | exact IH].
+Qed.
+
+Lemma lookup_None_keys : forall (A : Type) (k : name) (mp : list (name * A)),
+  ~ In k (map fst mp) -> lookup k mp = None.
+Proof.
+  intros A k mp. induction mp as [|[k' v'] mp IH]; cbn [map fst In lookup]; intro H; [reflexivity|].
+  destruct (text_eqb k' k) eqn:E.
+  - apply text_eqb_eq in E. exfalso. apply H. left. exact E.
+  - apply IH. intro Hin. apply H. right. exact Hin.
+Qed.
+
+Lemma index_of_Some : forall n l, In n l -> exists i, index_of n l = Some i.
+Proof.
+  intros n l. induction l as [|x l IH]; cbn [In index_of]; intro H; [contradiction|].
+  destruct (text_eqb x n) eqn:E; [eexists; reflexivity|].
+  destruct H as [H|H]; [apply text_eqb_neq in E; contradiction|].
+  destruct (IH H) as [i ->]. eexists; reflexivity.
+Qed.
+
+Lemma insert_keyed_In : forall x y l, In y (insert_keyed x l) <-> y = x \/ In y l.
+Proof.
+  intros x y l. induction l as [|z l IH]; cbn [insert_keyed In].
+  - split; intros [H|H]; auto; contradiction.
+  - destruct (Nat.ltb (fst x) (fst z)); cbn [In]; [|rewrite IH]; split; intros H; intuition auto.
+Qed.
+
+Lemma sort_keyed_In : forall l y, In y (sort_keyed l) <-> In y l.
+Proof.
+  intros l y. unfold sort_keyed.
+  assert (H : forall l acc, In y (fold_left (fun acc x => insert_keyed x acc) l acc) <-> In y l \/ In y acc).
+  { clear l. induction l as [|x l IH]; intro acc; cbn [fold_left In]; [tauto|].
+    rewrite IH, insert_keyed_In. split; intros H; intuition auto. }
+  rewrite H. cbn [In]. tauto.
+Qed.
+
+Section Closure.
+  Variable prims : list name.
+  Variable m : mm.
+  Hypothesis Hnd : NoDup (names m).
+  Hypothesis Hbases : forall cl b, In cl m -> In b (class_bases prims cl) -> In b (names m).
+  (** a class that constrains a primitive type inherits from nothing else (otherwise the
+      ontology fails an assertion) *)
+  Hypothesis Hprim : forall cl, In cl m -> has_prim_base prims cl = true -> length (c_bases cl) = 1.
+
+  Notation base := (base prims m).
+  Notation anc_rel := (clos_trans name base).
+
+  Lemma clos_step : forall c a, anc_rel c a <-> exists p, base c p /\ (a = p \/ anc_rel p a).
+  Proof.
+    intros c a. split.
+    - intro H. apply clos_trans_t1n in H. destruct H as [y Hy | y z Hy Hz].
+      + exists y. split; [exact Hy | left; reflexivity].
+      + exists y. split; [exact Hy|]. right. apply clos_t1n_trans. exact Hz.
+    - intros [p [Hp [->|H]]]; [apply t_step; exact Hp|].
+      eapply t_trans; [apply t_step; exact Hp | exact H].
+  Qed.
+
+  Lemma no_prim_bases : forall cl, has_prim_base prims cl = false -> class_bases prims cl = c_bases cl.
+  Proof.
+    intros cl. unfold has_prim_base, class_bases.
+    induction (c_bases cl) as [|b bs IH]; cbn [existsb filter]; intro H; [reflexivity|].
+    apply orb_false_iff in H. destruct H as [H1 H2]. rewrite H1. cbn [negb]. rewrite IH; auto.
+  Qed.
+
+  Lemma prim_no_bases : forall cl, In cl m -> has_prim_base prims cl = true -> class_bases prims cl = [].
+  Proof.
+    intros cl Hcl Hp. pose proof (Hprim cl Hcl Hp) as Hlen.
+    unfold has_prim_base in Hp. unfold class_bases.
+    destruct (c_bases cl) as [|b [|b' bs]]; cbn [length] in Hlen; try discriminate.
+    cbn [existsb] in Hp. rewrite orb_false_r in Hp. cbn [filter]. rewrite Hp. reflexivity.
+  Qed.
+
+  (** what the accumulated map says about the classes processed so far *)
+  Definition ainv (acc : amap) : Prop :=
+    forall c l, lookup c acc = Some l -> forall a, In a l <-> anc_rel c a.
+
+  Lemma pwo_fold : forall order bs ps0,
+    (forall b, In b bs -> In b order) ->
+    exists pwo, fold_o (fun ps b => match index_of b order with
+                                    | Some i => Ok (ps ++ [(i, b)])
+                                    | None => @Crash (list (nat * name)) name KeyError
+                                    end) bs ps0 = Ok (ps0 ++ pwo)
+                /\ map snd pwo = bs.
+  Proof.
+    intros order bs. induction bs as [|b bs IH]; intros ps0 Hin; cbn [fold_o].
+    - exists []. rewrite app_nil_r. split; reflexivity.
+    - destruct (index_of_Some b order) as [i Ei]; [apply Hin; left; reflexivity|].
+      rewrite Ei. destruct (IH (ps0 ++ [(i, b)])) as [pwo [E Hs]].
+      + intros b' Hb'. apply Hin. right. exact Hb'.
+      + exists ((i, b) :: pwo). rewrite E. rewrite <- app_assoc. cbn [app map snd].
+        split; [reflexivity | rewrite Hs; reflexivity].
+  Qed.
+
+  Lemma ca_fold : forall (acc : amap) ips ca0,
+    (forall ip, In ip ips -> exists l, lookup (snd ip) acc = Some l) ->
+    exists ca, fold_o (fun ca (ip : nat * name) =>
+                         match lookup (snd ip) acc with
+                         | Some pa => Ok (ca ++ pa ++ [snd ip])
+                         | None => @Crash (list name) name AssertionError
+                         end) ips ca0 = Ok ca
+               /\ forall a, In a ca <->
+                            In a ca0 \/ exists ip l, In ip ips /\ lookup (snd ip) acc = Some l
+                                                     /\ (a = snd ip \/ In a l).
+  Proof.
+    intros acc ips. induction ips as [|ip ips IH]; intros ca0 Hl; cbn [fold_o].
+    - exists ca0. split; [reflexivity|]. intro a. split; [auto|].
+      intros [H|[ip [l [[] _]]]]. exact H.
+    - destruct (Hl ip (or_introl eq_refl)) as [l El]. rewrite El.
+      destruct (IH (ca0 ++ l ++ [snd ip])) as [ca [E Hca]].
+      + intros ip' Hip'. apply Hl. right. exact Hip'.
+      + exists ca. split; [exact E|]. intro a. rewrite Hca. split.
+        * intros [H|[ip' [l' [Hip' [El' H]]]]].
+          -- apply in_app_or in H. destruct H as [H|H]; [left; exact H|].
+             right. exists ip, l. split; [left; reflexivity|]. split; [exact El|].
+             apply in_app_or in H. destruct H as [H|[H|[]]]; [right; exact H | left; symmetry; exact H].
+          -- right. exists ip', l'. split; [right; exact Hip'|]. split; assumption.
+        * intros [H|[ip' [l' [[<-|Hip'] [El' H]]]]].
+          -- left. apply in_or_app. left. exact H.
+          -- left. rewrite El in El'. injection El' as <-. apply in_or_app. right.
+             apply in_or_app. destruct H as [->|H]; [right; left; reflexivity | left; exact H].
+          -- right. exists ip', l'. split; [exact Hip'|]. split; assumption.
+  Qed.
+
+  Lemma onto_step_ok : forall order acc c cl,
+    find_class m c = Some cl ->
+    ainv acc ->
+    (forall b, base c b -> In b (map fst acc)) ->
+    (forall b, base c b -> In b order) ->
+    ~ In c (map fst acc) ->
+    exists ca, onto_step prims m order acc c = Ok (acc ++ [(c, ca)]) /\ ainv (acc ++ [(c, ca)]).
+  Proof.
+    intros order acc c cl Hcl Hinv Hdone Hord Hnew.
+    pose proof (find_class_Some _ _ _ Hcl) as [Hclm Hcln].
+    assert (Hbase : forall b, base c b <-> In b (class_bases prims cl)).
+    { intro b. split.
+      - intros [cl' [E Hb]]. rewrite Hcl in E. injection E as <-. exact Hb.
+      - intro Hb. exists cl. split; assumption. }
+    assert (Hext : forall ca, (forall a, In a ca <-> anc_rel c a) -> ainv (acc ++ [(c, ca)])).
+    { intros ca Hca c' l E a. rewrite lookup_snoc in E.
+      destruct (lookup c' acc) as [x|] eqn:El.
+      - injection E as <-. eapply Hinv; eassumption.
+      - destruct (text_eqb c c') eqn:Ec; [|discriminate]. injection E as <-.
+        apply text_eqb_eq in Ec. subst c'. apply Hca. }
+    unfold onto_step. rewrite Hcl.
+    destruct (has_prim_base prims cl) eqn:Ep.
+    - rewrite (Hprim cl Hclm Ep). cbn [Nat.eqb]. exists []. split; [reflexivity|].
+      apply Hext. intro a. split; [intros []|].
+      intro H. apply clos_step in H. destruct H as [p [Hp _]]. apply Hbase in Hp.
+      rewrite (prim_no_bases cl Hclm Ep) in Hp. destruct Hp.
+    - pose proof (no_prim_bases cl Ep) as Ecb.
+      destruct (pwo_fold order (c_bases cl) []) as [pwo [Epwo Hsnd]].
+      { intros b Hb. apply Hord. apply Hbase. rewrite Ecb. exact Hb. }
+      rewrite Epwo. cbn [app].
+      destruct (ca_fold acc (sort_keyed pwo) []) as [ca [Eca Hca]].
+      { intros ip Hip. apply (proj1 (sort_keyed_In _ _)) in Hip. apply lookup_In_keys. apply Hdone.
+        apply Hbase. rewrite Ecb, <- Hsnd. apply in_map. exact Hip. }
+      rewrite Eca. exists ca. split; [reflexivity|]. apply Hext.
+      intro a. rewrite Hca, clos_step. split.
+      + intros [[]|[ip [l [Hip [El H]]]]].
+        apply (proj1 (sort_keyed_In _ _)) in Hip.
+        assert (Hb : base c (snd ip)).
+        { apply Hbase. rewrite Ecb, <- Hsnd. apply in_map. exact Hip. }
+        exists (snd ip). split; [exact Hb|].
+        destruct H as [H|H]; [left; exact H | right; eapply Hinv; eassumption].
+      + intros [p [Hp H]]. right.
+        assert (Hin : In p (map snd pwo)). { rewrite Hsnd, <- Ecb. apply Hbase. exact Hp. }
+        apply in_map_iff in Hin. destruct Hin as [ip [Eip Hip]].
+        destruct (lookup_In_keys _ p acc (Hdone p Hp)) as [l El].
+        exists ip, l. split; [apply (proj2 (sort_keyed_In _ _)); exact Hip|]. rewrite Eip. split; [exact El|].
+        destruct H as [H|H]; [left; exact H | right; eapply Hinv; eassumption].
+  Qed.
+
+  Lemma onto_fold_ok : forall order rest done acc,
+    order = done ++ rest -> NoDup order -> incl order (names m) ->
+    (forall l1 c l2, order = l1 ++ c :: l2 -> forall b, base c b -> In b l1) ->
+    map fst acc = done -> ainv acc ->
+    exists anc, fold_o (onto_step prims m order) rest acc = Ok anc
+                /\ map fst anc = order /\ ainv anc.
+  Proof.
+    intros order rest. induction rest as [|c rest IH]; intros done acc Eo Hndo Hincl Htopo Hkeys Hinv.
+    - exists acc. cbn [fold_o]. rewrite app_nil_r in Eo. subst. split; [reflexivity|]. split; [reflexivity | exact Hinv].
+    - cbn [fold_o].
+      assert (Hc : In c (names m)). { apply Hincl. rewrite Eo. apply in_or_app. right. left. reflexivity. }
+      destruct (find_class_In m c Hc) as [cl Hcl].
+      destruct (onto_step_ok order acc c cl Hcl Hinv) as [ca [E Hinv']].
+      + intros b Hb. rewrite Hkeys. eapply Htopo; eassumption.
+      + intros b Hb. rewrite Eo. apply in_or_app. left. eapply Htopo; eassumption.
+      + rewrite Hkeys. rewrite Eo in Hndo. apply NoDup_remove_2 in Hndo.
+        intro H. apply Hndo. apply in_or_app. left. exact H.
+      + rewrite E. apply (IH (done ++ [c])).
+        * rewrite <- app_assoc. exact Eo.
+        * exact Hndo.
+        * exact Hincl.
+        * exact Htopo.
+        * rewrite map_app. cbn [map fst]. rewrite Hkeys. reflexivity.
+        * exact Hinv'.
+  Qed.
+End Closure.
+
+Lemma onto_descendants_In : forall anc a d,
+  In d (onto_descendants anc a) <-> exists l, In (d, l) anc /\ In a l.
+Proof.
+  intros anc a d. unfold onto_descendants. rewrite in_flat_map. split.
+  - intros [[k l] [He Hd]]. cbn [fst snd] in Hd. apply in_map_iff in Hd.
+    destruct Hd as [x [<- Hx]]. apply filter_In in Hx. destruct Hx as [Hx E].
+    apply text_eqb_eq in E. subst x. exists l. split; assumption.
+  - intros [l [He Ha]]. exists (d, l). split; [exact He|]. cbn [fst snd].
+    apply in_map_iff. exists a. split; [reflexivity|]. apply filter_In. split; [exact Ha | apply text_eqb_refl].
+Qed.
+
+Section ClosureIR.
+  Variable prims : list name.
+  Variable m : mm.
+
+  Definition prims_alone : Prop :=
+    forall cl, In cl m -> has_prim_base prims cl = true -> length (c_bases cl) = 1.
+
+  Lemma anc_rel_names : (forall cl b, In cl m -> In b (class_bases prims cl) -> In b (names m)) ->
+    forall d a, clos_trans name (base prims m) d a -> In a (names m).
+  Proof.
+    intros Hb d a H. induction H as [x y [cl [Hcl Hy]]|]; [|assumption].
+    apply find_class_Some in Hcl. destruct Hcl as [Hcl _]. eapply Hb; eassumption.
+  Qed.
+
+  (** The ancestors of every class in the intermediate model are exactly the transitive
+      closure of the declared bases. *)
+  Theorem ancestors_closure_thm : wf prims m -> prims_alone ->
+    exists order anc,
+      topo_sort prims m = Ok order /\ onto_ancestors prims m order = Ok anc
+      /\ forall d a, In d (names m) ->
+           (In a (ir_ancestors m anc d) <-> clos_trans name (base prims m) d a).
+  Proof.
+    intros Hwf Hprim. pose proof Hwf as [Hnd [Hbases _]].
+    destruct (topo_sort_ok prims m Hwf) as [order [Et [Htopo Hperm]]].
+    assert (Hndo : NoDup order). { eapply Permutation_NoDup; [apply Permutation_sym; exact Hperm | exact Hnd]. }
+    assert (Hincl : incl order (names m)). { intros x Hx. eapply Permutation_in; eassumption. }
+    destruct (onto_fold_ok prims m Hprim order order [] []) as [anc [Ea [Hkeys Hinv]]].
+    - reflexivity.
+    - exact Hndo.
+    - exact Hincl.
+    - apply topo_split. exact Htopo.
+    - reflexivity.
+    - intros c l E. discriminate.
+    - exists order, anc. split; [exact Et|]. split; [exact Ea|].
+      intros d a Hd. unfold ir_ancestors, ir_descendants.
+      rewrite filter_In, mem_text_In, dedup_In, onto_descendants_In. split.
+      + intros [_ [l [Hl Ha]]]. eapply Hinv; [|exact Ha].
+        apply In_lookup_NoDup; [rewrite Hkeys; exact Hndo | exact Hl].
+      + intro H. split; [eapply anc_rel_names; eassumption|].
+        assert (Hdo : In d (map fst anc)).
+        { rewrite Hkeys. eapply Permutation_in; [apply Permutation_sym; exact Hperm | exact Hd]. }
+        destruct (lookup_In_keys _ d anc Hdo) as [l El].
+        exists l. split; [apply lookup_Some_In; exact El|]. eapply Hinv; eassumption.
+  Qed.
+End ClosureIR.
+
+(** * Stacking, constructor in-lining, interfaces: what one step of each pass establishes *)
+Lemma lookup_update_same : forall (A : Type) (k : name) (v : A) mp, lookup k (update k v mp) = Some v.
+Proof.
+  intros A k v mp. induction mp as [|[k' v'] mp IH]; cbn [update lookup].
+  - rewrite text_eqb_refl. reflexivity.
+  - destruct (text_eqb k' k) eqn:E; cbn [lookup]; [rewrite text_eqb_refl; reflexivity|].
+    rewrite E. exact IH.
+Qed.
+
+Lemma lookup_update_other : forall (A : Type) (k k2 : name) (v : A) mp,
+  k <> k2 -> lookup k2 (update k v mp) = lookup k2 mp.
+Proof.
+  intros A k k2 v mp Hne. induction mp as [|[k' v'] mp IH]; cbn [update lookup].
+  - apply text_eqb_neq in Hne. rewrite Hne. reflexivity.
+  - destruct (text_eqb k' k) eqn:E; cbn [lookup].
+    + apply text_eqb_eq in E. subst k'. apply text_eqb_neq in Hne. rewrite Hne. reflexivity.
+    + destruct (text_eqb k' k2); [reflexivity | exact IH].
+Qed.
+
+Section Steps.
+  Variable prims : list name.
+  Variable m : mm.
+  Variable anc : amap.
+
+  (** One step of the stacking passes: the entry of the class becomes
+      dedup (concatenation of the parents' current entries) ++ own; other entries stay. *)
+  Theorem stacked_step_thm : forall (A : Type) (skip : name -> bool)
+      (st : list (name * list (ident A))) n c,
+    skip n = false -> find_class m n = Some c ->
+    lookup n (stack_step prims m skip st n)
+    = Some (dedup id_eqb (flat_map (fun b => lk b st) (class_bases prims c)) ++ lk n st)
+    /\ forall k, k <> n -> lookup k (stack_step prims m skip st n) = lookup k st.
+  Proof.
+    intros A skip st n c Hs Hc. unfold stack_step. rewrite Hs, Hc. split.
+    - rewrite lookup_update_same. reflexivity.
+    - intros k Hk. apply lookup_update_other. congruence.
+  Qed.
+
+  (** An accepted model has no two properties of the same name in a class. *)
+  Theorem props_nodup_thm : forall pmap c,
+    props_violation prims m anc pmap = false -> In c m -> is_cp prims m anc (c_name c) = false ->
+    NoDup (map id_val (lk (c_name c) pmap)).
+  Proof.
+    intros pmap c H Hc Hcp. unfold props_violation in H.
+    assert (Hall : forall x, In x m ->
+              negb (is_cp prims m anc (c_name x))
+              && negb (nodupb (map id_val (match lookup (c_name x) pmap with Some l => l | None => [] end))) = false).
+    { intros x Hx. destruct (_ && _) eqn:E; [|reflexivity].
+      assert (existsb (fun c0 => negb (is_cp prims m anc (c_name c0))
+                && negb (nodupb (map id_val (match lookup (c_name c0) pmap with Some l => l | None => [] end)))) m = true)
+        by (apply existsb_exists; exists x; split; assumption).
+      congruence. }
+    specialize (Hall c Hc). rewrite Hcp in Hall. cbn [negb andb] in Hall.
+    apply negb_false_iff in Hall. apply nodupb_NoDup in Hall. exact Hall.
+  Qed.
+
+  (** One step of the constructor pass without a reported error: the in-lined list of the
+      class contains no call to a super-constructor and assigns no property twice. *)
+  Theorem ctor_step_thm : forall kmap err c kmap',
+    ctor_step prims m anc (kmap, err) c = Ok (kmap', false) ->
+    is_cp prims m anc (c_name c) = false ->
+    forallb (fun x => is_assign (id_val x)) (lk (c_name c) kmap') = true
+    /\ NoDup (map (fun x => stmt_prop (id_val x)) (lk (c_name c) kmap')).
+  Proof.
+    intros kmap err c kmap' H Hcp. unfold ctor_step in H. rewrite Hcp in H.
+    destruct (inline_body prims m anc c kmap _ [] err) as [[inls err1]| |] eqn:E; try discriminate.
+    destruct (forallb (fun x => is_assign (id_val x)) inls) eqn:Ea; cbn [negb] in H; [|discriminate].
+    injection H as <- Herr. unfold lk. rewrite lookup_update_same.
+    apply orb_false_iff in Herr. destruct Herr as [_ Hn].
+    apply negb_false_iff in Hn. apply nodupb_NoDup in Hn. split; assumption.
+  Qed.
+
+  (** One step of the interface pass: an interface is created exactly for an abstract
+      class or a class with descendants, and it inherits from the interfaces of the bases. *)
+  Theorem iface_step_thm : forall st n c st',
+    iface_step prims m anc st n = Ok st' ->
+    is_cp prims m anc n = false -> find_class m n = Some c -> ~ In n (map fst st) ->
+    lookup n st' = Some (if c_abstract c || negb (is_nil (onto_descendants anc n))
+                         then Some (c_bases c) else None).
+  Proof.
+    intros st n c st' H Hcp Hc Hnew. unfold iface_step in H. rewrite Hcp, Hc in H.
+    destruct (c_abstract c || negb (is_nil (onto_descendants anc n))).
+    - destruct (forallb _ (c_bases c)); [|discriminate]. injection H as <-.
+      rewrite lookup_snoc, (lookup_None_keys _ n st Hnew), text_eqb_refl. reflexivity.
+    - injection H as <-.
+      rewrite lookup_snoc, (lookup_None_keys _ n st Hnew), text_eqb_refl. reflexivity.
+  Qed.
+End Steps.
